@@ -303,6 +303,36 @@ def run_property(prop, tier, seed, update_baseline=False):
                 path = write_replay(prop, "e2e-" + v["key"], {"property": prop, "from": "e2e bounded contract", **v})
                 violations.append((path, True, v["key"]))
 
+    # ---- bounded stand-in 3: the proved contracts evaluated on the real objects of real conversions (cross-check of the
+    # prover's model of Python/pyxform against CPython; a failure carries the form that produced the call)
+    mon = None
+    try:
+        if not os.environ.get("VERIF_DEV_NO_E2E"):
+            from . import monitor as monitor_mod
+
+            mon = monitor_mod.run(tier, seed, budget_s=45 if tier == "quick" else 240, prop=prop, reg=reg)
+    except Exception as e:  # noqa: BLE001
+        errors.append(f"runtime contract monitor crashed: {type(e).__name__}: {e}\n{traceback.format_exc()[-1500:]}")
+    if mon:
+        seen_m = set()
+        for f in mon["failures"]:
+            key = f"monitor:{f['function']}#{hashlib.sha1(f['clause'].encode()).hexdigest()[:8]}"
+            if key in seen_m:
+                continue
+            seen_m.add(key)
+            kf = match_known(known, prop, key)
+            if kf is not None:
+                known_hits.append((kf, key))
+                continue
+            path = write_replay(prop, key.replace(":", "-"), {"property": prop, "from": "runtime contract monitor (real call)",
+                                                              "key": key, **f})
+            violations.append((path, True, key))
+        mon = {"forms_converted": mon["forms"], "wall_s": mon["wall_s"], "failures": len(mon["failures"]),
+               "adapter_errors": mon.get("adapter_errors", []),
+               "functions": mon["stats"],
+               "note": "bounded: requires/ensures of the deductively verified contracts evaluated natively on every call the "
+                       "corpus conversions make to the real methods; never counted in 'discharged'"}
+
     # ---- table obligations: finite ground facts about the real tables / compiled regexes, decided by evaluation
     tables = None
     tfuncs = reg.native_env.get("TABLES", {}).get(prop, [])
@@ -425,17 +455,20 @@ def run_property(prop, tier, seed, update_baseline=False):
         "known_findings_matched": sorted(seen),
         "bounded_native_contract_search": bounded,
         "bounded_e2e": {k: v for k, v in (e2e or {}).items() if k != "violations"},
+        "runtime_contract_monitor": mon,
         "frame_obligations": eff,
         "table_obligations": tables,
         "samples": samples or list((e2e or {}).get("samples", []))
                    or [{"bounded_contract": k, **v} for k, v in list(bounded["functions"].items())[:3] if isinstance(v, dict)],
         # generic exploration-style keys (bounded parts): native contract evaluations + e2e conversions
-        "evaluations": bounded["evaluations"] + (e2e or {}).get("evaluations", 0),
+        "evaluations": bounded["evaluations"] + (e2e or {}).get("evaluations", 0)
+                       + sum(v.get("evaluated", 0) for v in ((mon or {}).get("functions") or {}).values()),
         "distinct_nontrivial": sum(v.get("distinct", 0) for v in bounded["functions"].values() if isinstance(v, dict))
                                + (e2e or {}).get("distinct_nontrivial", 0),
         "rule": "bounded parts only: (a) native contract search = small-scope exhaustive generators (contracts/native_*.py) plus "
                 "seeded random inputs, distinct = distinct argument tuples that satisfy the precondition; (b) e2e = distinct form "
-                "texts converted and judged by the property's independent oracle (bounded/oracles)",
+                "texts converted and judged by the property's independent oracle (bounded/oracles); (c) runtime contract monitor = "
+                "calls of the contracted real methods made while converting the corpus, each judged by the proved contract",
         "explanation": (
             "Deductive part: obligations generated by pyvc from the real function bodies in /repo and the "
             "sidecar contracts, discharged by z3/cvc5. Bounded parts (native contract search, e2e corpus) are "
@@ -486,6 +519,10 @@ def replay(path):
         p = json.load(f)
     print(json.dumps({k: p.get(k) for k in ("property", "obligation", "function", "from", "key", "what")}, indent=1))
     w = p.get("witness")
+    if p.get("monitor_form_md"):
+        from . import monitor as monitor_mod
+
+        return monitor_mod.replay(p)
     if p.get("form_md"):
         from bounded import e2e as e2e_mod
 
